@@ -17,6 +17,9 @@ func main() {
 		cmdFn(os.Args[2:])
 	case "check":
 		cmdCheck(os.Args[2:])
+	case "abs":
+		b, _ := os.ReadFile(os.Args[2])
+		fmt.Print(abstractStrings(string(b)))
 	default:
 		fmt.Fprintln(os.Stderr, "unknown command")
 		os.Exit(2)
